@@ -274,6 +274,22 @@ bool scheduleLegal (const std::vector<StepRec>& steps, uint64_t len, int W)
     return true;
 }
 
+void appendJson (std::string& o, const DispatchRec& d);
+
+// single-run mode (gating, minimisation, replay): every schedule is written out *before* it is executed,
+// so that the schedule of a run that dies under a sanitizer is still known
+void logDispatch (const DispatchRec& rec)
+{
+    static const char* path = getenv ("DETSIM_TRACE_FILE");
+    if (!path || !*path) return;
+    FILE* f = fopen (path, "a");
+    if (!f) return;
+    std::string js;
+    appendJson (js, rec);
+    fprintf (f, "%s\n", js.c_str ());
+    fclose (f);
+}
+
 struct SimPool : PyImath::WorkerPool
 {
     size_t workers () const override { return size_t (currentW ()); }
@@ -317,6 +333,7 @@ struct SimPool : PyImath::WorkerPool
             makeSchedule (length, g_cfg, no, rec.steps);
             if (!scheduleLegal (rec.steps, length, rec.W)) { g_contractViolations++; rec.steps.clear (); rec.steps.push_back ({0, length, 0}); }
         }
+        logDispatch (rec);
         if (rec.flags & 1)
         {
             // a pool is allowed to run the whole range itself on the calling thread
@@ -355,6 +372,8 @@ struct SimPool : PyImath::WorkerPool
             executed.push_back (s);
             if (e)
             {
+                // the exception object travels from the worker to the dispatcher: a real pool synchronises that
+                TSAN_ACQUIRE (&g_workerSync[s.tid]);
                 std::exception_ptr* ep = static_cast<std::exception_ptr*> (e);
                 if (!firstExc) firstExc = *ep;
                 delete ep;
